@@ -480,6 +480,14 @@ def generate_facts(repo):
     F('GROUP_FILTER_INITIALISED_ONLY_WHEN_EMPTY', lambda: (re.search(r'if\s+node\.children\.is_empty\(\)\s*\{\s*Self::init_filter_from_cow', str(ac)) is not None and
       str(ac).count('init_filter_from_cow') == 1), 'src/filter/hierarchical.rs',
       'HierarchicalFilters::add_child: a group filter is (re)initialised from a child only when the group has no child yet; a filter that was given up (None) stays None (Filter/Hier.v push)')
+    ixc = S('src/blob/index/core.rs')
+    lim = Lazy(lambda: body_with(ixc, 'load_in_memory', ['get_records_headers']))
+    F('INDEX_LOAD_REPLACES_RECORDS_AND_FILTERS_TOGETHER', lambda: (before(lim, 'get_records_headers(', 'self.inner = State::InMemory', 'load_in_memory') and
+      before(lim, 'read_meta().await', 'self.inner = State::InMemory', 'load_in_memory') and
+      before(lim, 'deserialize_filters(', 'self.inner = State::InMemory', 'load_in_memory') and
+      no_await_between(lim, 'self.inner = State::InMemory', 'self.filter = ', 'load_in_memory') and
+      '?' not in str(lim)[str(lim).index('self.inner = State::InMemory'):]), 'src/blob/index/core.rs',
+      'IndexStruct::load_in_memory: records and filters are read first and replaced together, with no suspension point and no early return in between (the load is one step of Storage/Cancel.v and Storage/Fault.v)')
     pm = Lazy(lambda: body_with(ow, 'process_msg', ['OperationType::CloseActiveBlob']))
     logged = all(re.search(x + r'\s*\.await\s*\?', str(pm)) is None for x in
                  (r'close_active_blob\(\)', r'create_active_blob\(\)', r'restore_active_blob\(\)', r'update_active_blob\(&self\.inner\)', r'try_update_active_blob\(\)'))
